@@ -10,6 +10,8 @@ missed = []
 assert sh('git -C /repo status --porcelain')[1].strip() == '', '/repo not clean'
 for d in sorted(glob.glob(os.path.join(V, 'seeded', '*'))):
     name = os.path.basename(d)
+    if not name.startswith('C'):
+        continue          # refactor-* are behaviour-preserving changes: tools/run_refactors.py
     prop = name.split('-')[0]
     rc, o = sh('git -C /repo apply %s/patch.diff' % d)
     if rc != 0:
